@@ -1,11 +1,12 @@
 import PallasVerif.Stream
 import PallasVerif.Model.U5c
+import PallasVerif.Model.U5cTx
 /-! stream `u5c`: datums in a prefix token grammar
     `c <tag> <any|-> <n> …` | `m <n> (k v)…` | `a <n> …` | `i <int>` | `u <hex>` | `n <hex>` | `b <hex>`;
     the mapped datum is printed in the same grammar with `I <int>` / `U <hex>` / `N <hex>` integers.
     `txdatum` and `file` ops are judged by the harness oracle only and reply `done`. -/
 namespace PallasVerif.Streams.U5c
-open PallasVerif PallasVerif.U5c
+open PallasVerif PallasVerif.U5c PallasVerif.U5cTx
 
 def bytes? (s : String) : Option Bytes := (Tok.unhex s).map (·.map (·.toNat))
 def hexByte (n : Nat) : String := String.ofList [Tok.hexDigit (n / 16), Tok.hexDigit (n % 16)]
@@ -75,6 +76,222 @@ def showPairs : List (UData × UData) → List String
   | (k, v) :: t => showData k ++ showData v ++ showPairs t
 end
 
+/-! ## `txview`: the ledger view of a transaction in prefix tokens, the mapped message printed back -/
+
+abbrev P (α : Type) := List String → Option (α × List String)
+
+def pNat : P Nat
+  | t :: r => (Tok.nat? t).map (fun n => (n, r))
+  | [] => none
+def pInt : P Int
+  | t :: r => (Tok.int? t).map (fun n => (n, r))
+  | [] => none
+def pBytes : P Bytes
+  | t :: r => (bytes? t).map (fun b => (b, r))
+  | [] => none
+def pOptNat : P (Option Nat)
+  | "-" :: r => some (none, r)
+  | t :: r => (Tok.nat? t).map (fun n => (some n, r))
+  | [] => none
+def pKw (k : String) : P Unit
+  | t :: r => if t = k then some ((), r) else none
+  | [] => none
+
+/-- `n` repetitions -/
+def pRep {α : Type} (p : P α) : Nat → P (List α)
+  | 0, ts => some ([], ts)
+  | n + 1, ts =>
+    match p ts with
+    | some (a, r) => (pRep p n r).map (fun (as, r') => (a :: as, r'))
+    | none => none
+
+def pCounted {α : Type} (p : P α) : P (List α) := fun ts =>
+  match pNat ts with
+  | some (n, r) => pRep p n r
+  | none => none
+
+def pTree : P PData := fun ts => parse (ts.length + 1) ts
+
+def pInput : P LInput := fun ts =>
+  match pBytes ts with
+  | some (h, r) => (pNat r).map (fun (i, r') => ({ hash := h, index := i }, r'))
+  | none => none
+
+def pAssets {Q : Type} (q : P Q) : P (LAssets Q) :=
+  pCounted (fun ts =>
+    match pBytes ts with
+    | some (p, r) =>
+      (pCounted (fun ts => match pBytes ts with
+        | some (n, r) => (q r).map (fun (x, r') => ((n, x), r'))
+        | none => none) r).map (fun (as, r') => ((p, as), r'))
+    | none => none)
+
+def pNative : Nat → P NativeScript
+  | 0, _ => none
+  | f + 1, "k" :: r => (pBytes r).map (fun (h, r') => (.pubkey h, r'))
+  | f + 1, "A" :: r => (pCounted (pNative f) r).map (fun (xs, r') => (.all xs, r'))
+  | f + 1, "O" :: r => (pCounted (pNative f) r).map (fun (xs, r') => (.any xs, r'))
+  | f + 1, "K" :: r =>
+    match pNat r with
+    | some (k, r) => (pCounted (pNative f) r).map (fun (xs, r') => (.nOfK k xs, r'))
+    | none => none
+  | _ + 1, "B" :: r => (pNat r).map (fun (s, r') => (.invalidBefore s, r'))
+  | _ + 1, "F" :: r => (pNat r).map (fun (s, r') => (.invalidHereafter s, r'))
+  | _ + 1, _ => none
+
+def pDatumOpt : P (Option LDatum)
+  | "dn" :: r => some (none, r)
+  | "dh" :: r => (pBytes r).map (fun (h, r') => (some (.hash h), r'))
+  | "di" :: r =>
+    match pBytes r with
+    | some (c, r) => (pTree r).map (fun (d, r') => (some (.inline c d), r'))
+    | none => none
+  | _ => none
+
+def pScriptOpt : P (Option LScript)
+  | "sn" :: r => some (none, r)
+  | "sp" :: r =>
+    match pNat r with
+    | some (v, r) => (pBytes r).map (fun (b, r') => (some (.plutus v b), r'))
+    | none => none
+  | "ss" :: r => (pNative (r.length + 1) r).map (fun (s, r') => (some (.native s), r'))
+  | _ => none
+
+def pOutput : P LOutput := fun ts =>
+  match pBytes ts with
+  | none => none
+  | some (addr, r) =>
+  match pNat r with
+  | none => none
+  | some (coin, r) =>
+  match pAssets pNat r with
+  | none => none
+  | some (assets, r) =>
+  match pDatumOpt r with
+  | none => none
+  | some (datum, r) =>
+  (pScriptOpt r).map (fun (script, r') => ({ address := addr, coin, assets, datum, script }, r'))
+
+def pRedeemer : P LRedeemer := fun ts =>
+  match pRep pNat 4 ts with
+  | some ([tag, index, mem, steps], r) => (pTree r).map (fun (d, r') => ({ tag, index, data := d, mem, steps }, r'))
+  | _ => none
+
+/-- `hash H valid B fee O vs O ttl O tc O certs N in … ref … col … out … cr … mint … wd … pd … rd …` -/
+def pTx : P LTx := fun ts =>
+  match ts with
+  | "hash" :: h :: "valid" :: v :: "fee" :: r =>
+    match bytes? h, Tok.bool? v, pOptNat r with
+    | some hash, some isValid, some (fee, "vs" :: r) =>
+      match pOptNat r with
+      | some (validityStart, "ttl" :: r) =>
+        match pOptNat r with
+        | some (ttl, "tc" :: r) =>
+          match pOptNat r with
+          | some (totalCollateral, "certs" :: r) =>
+            match pNat r with
+            | some (certs, "in" :: r) =>
+              match pCounted pInput r with
+              | some (inputs, "ref" :: r) =>
+                match pCounted pInput r with
+                | some (referenceInputs, "col" :: r) =>
+                  match pCounted pInput r with
+                  | some (collateral, "out" :: r) =>
+                    match pCounted pOutput r with
+                    | some (outputs, "cr" :: r) =>
+                      match pCounted pOutput r with
+                      | some (crs, "mint" :: r) =>
+                        match pAssets pInt r with
+                        | some (mint, "wd" :: r) =>
+                          match pCounted (fun ts => match pBytes ts with
+                              | some (a, r) => (pNat r).map (fun (c, r') => ((a, c), r'))
+                              | none => none) r with
+                          | some (withdrawals, "pd" :: r) =>
+                            match pCounted (fun ts => match pBytes ts with
+                                | some (h, r) => (pTree r).map (fun (d, r') => ((h, d), r'))
+                                | none => none) r with
+                            | some (witnessDatums, "rd" :: r) =>
+                              (pCounted pRedeemer r).map (fun (redeemers, r') =>
+                                ({ hash, inputs, outputs, fee, validityStart, ttl, mint, collateral,
+                                   collateralReturn := crs.head?, totalCollateral, referenceInputs, withdrawals, certs,
+                                   witnessDatums, redeemers, isValid }, r'))
+                            | _ => none
+                          | _ => none
+                        | _ => none
+                      | _ => none
+                    | _ => none
+                  | _ => none
+                | _ => none
+              | _ => none
+            | _ => none
+          | _ => none
+        | _ => none
+      | _ => none
+    | _, _, _ => none
+  | _ => none
+
+def bi : UInt → String
+  | .int v => "I" ++ toString v
+  | .bigUInt b => "U" ++ showBytes b
+  | .bigNInt b => "N" ++ showBytes b
+
+mutual
+def tree : UData → String
+  | .constr tag any fields => "c(" ++ toString tag ++ "," ++ toString any ++ ",[" ++ ";".intercalate (trees fields) ++ "])"
+  | .map pairs => "m([" ++ ";".intercalate (treePairs pairs) ++ "])"
+  | .array items => "a([" ++ ";".intercalate (trees items) ++ "])"
+  | .bigInt i => bi i
+  | .bytes b => "b" ++ showBytes b
+def trees : List UData → List String
+  | [] => []
+  | d :: t => tree d :: trees t
+def treePairs : List (UData × UData) → List String
+  | [] => []
+  | (k, v) :: t => (tree k ++ "=" ++ tree v) :: treePairs t
+end
+
+mutual
+def native : NativeScript → String
+  | .pubkey h => "k" ++ showBytes h
+  | .all xs => "A[" ++ ";".intercalate (natives xs) ++ "]"
+  | .any xs => "O[" ++ ";".intercalate (natives xs) ++ "]"
+  | .nOfK n xs => "K" ++ toString n ++ "[" ++ ";".intercalate (natives xs) ++ "]"
+  | .invalidBefore s => "B" ++ toString s
+  | .invalidHereafter s => "F" ++ toString s
+def natives : List NativeScript → List String
+  | [] => []
+  | x :: t => native x :: natives t
+end
+
+def showAssetsU (m : List (Bytes × List (Bytes × UInt))) : String :=
+  "{" ++ ",".intercalate (m.map (fun p => showBytes p.1 ++ ":{" ++ ",".intercalate (p.2.map (fun a => showBytes a.1 ++ "=" ++ bi a.2)) ++ "}")) ++ "}"
+
+def showUOut (o : UOutput) : String :=
+  showBytes o.address ++ "/" ++ bi o.coin ++ "/" ++ showAssetsU o.assets ++ "/" ++
+  showBytes o.datum.hash ++ ";" ++ (match o.datum.payload with | none => "-" | some d => tree d) ++ ";" ++ showBytes o.datum.originalCbor ++ "/" ++
+  (match o.script with | none => "none" | some (.native s) => "n" ++ native s | some (.plutus v b) => "p" ++ toString v ++ "." ++ showBytes b)
+
+def showUIn (i : UInput) : String := showBytes i.txHash ++ ":" ++ toString i.outputIndex
+
+def showUTx (t : UTx) : String :=
+  "hash=" ++ showBytes t.hash ++ " in=" ++ Tok.showList showUIn t.inputs ++ " out=" ++ Tok.showList showUOut t.outputs ++
+  " fee=" ++ bi t.fee ++ " vs=" ++ toString t.validityStart ++ " ttl=" ++ toString t.ttl ++ " mint=" ++ showAssetsU t.mint ++
+  " col=" ++ Tok.showList showUIn t.collateral ++ " cr=" ++ (match t.collateralReturn with | none => "none" | some o => showUOut o) ++
+  " tc=" ++ bi t.totalCollateral ++ " ref=" ++ Tok.showList showUIn t.referenceInputs ++
+  " wd=" ++ Tok.showList (fun (w : Bytes × UInt) => showBytes w.1 ++ "=" ++ bi w.2) t.withdrawals ++ " certs=" ++ toString t.certs ++
+  " pd=" ++ Tok.showList tree t.witnessDatums ++
+  " rd=" ++ Tok.showList (fun (r : URedeemer) => toString r.purpose ++ ":" ++ toString r.index ++ ":" ++ toString r.mem ++ ":" ++ toString r.steps ++ ":" ++ tree r.payload) t.redeemers ++
+  " ok=" ++ (if t.successful then "1" else "0")
+
+/-- everything after the `|` of a `txview` line -/
+def txviewOp (toks : List String) : String :=
+  match (toks.dropWhile (· ≠ "|")).drop 1 with
+  | [] => "bad-op"
+  | view =>
+    match pTx view with
+    | some (t, []) => "ok " ++ showUTx (mapTx t)
+    | _ => "bad-op"
+
 def mapOp (toks : List String) : String :=
   match parse (toks.length + 1) toks with
   | some (d, []) => "ok " ++ " ".intercalate (showData (mapDatum d))
@@ -85,6 +302,7 @@ def step (u : Unit) : List String → Unit × String
   | "datum" :: toks => (u, mapOp toks)
   | ["u64", v] => (u, match Tok.nat? v with | some v => "ok " ++ showInt (u64ToBigInt v) | none => "bad-op")
   | ["i64", v] => (u, match Tok.int? v with | some v => "ok " ++ showInt (i64ToBigInt v) | none => "bad-op")
+  | "txview" :: toks => (u, txviewOp toks)
   | "txdatum" :: _ => (u, "done")
   | "file" :: _ => (u, "done")
   | _ => (u, "bad-op")
